@@ -24,14 +24,14 @@ HISTORY = {
     # first batch (C01-C08)
     "C01_1": "caught as built", "C01_2": "caught as built", "C01_3": "caught as built",
     "C02_1": "refused as built (exit 2: the abstract evaluator did not model list.append/insert); caught after the evaluator learnt list methods",
-    "C02_2": "caught as built", "C02_3": "missed as built; rule C02-P7 added",
+    "C02_2": "caught as built", "C02_3": "missed as built; rule C02-P7 added (patch rebased onto the dimension guard of fix ec63bf7)",
     "C03_1": "missed as built; rule C03-I6 added (the same shape turned out to be a genuine defect of the pinned tree, fixed in a691843)",
     "C03_2": "caught as built", "C03_3": "caught as built",
-    "C04_1": "refused as built (exit 2: K5 did not understand the new predicate); caught after K5 classified numeric conversions",
+    "C04_1": "refused as built (exit 2: K5 did not understand the new predicate); caught after K5 classified numeric conversions (patch rebased onto fix cd6db15)",
     "C04_2": "caught as built", "C04_3": "caught as built",
-    "C05_2": "caught as built", "C05_3": "refused as built (exit 2); caught after K5 understood assumption queries (membership of NaN is lost)",
+    "C05_2": "caught as built", "C05_3": "refused as built (exit 2); caught after K5 understood assumption queries (membership of NaN is lost; patch rebased onto fix cd6db15)",
     "C06_1": "caught as built", "C06_2": "caught as built", "C06_3": "caught as built",
-    "C07_1": "caught as built", "C07_2": "caught as built", "C07_3": "missed as built; rule C07-U7 added",
+    "C07_1": "caught as built", "C07_2": "caught as built", "C07_3": "missed as built; rule C07-U7 added (patch rebased onto fix 83d038c)",
     "C08_1": "caught as built", "C08_2": "caught as built", "C08_3": "caught as built",
     # second batch (C09-C20)
     "C09_1": "missed as built; C09-N1 extended to the coordinate-system factories (every return derives from a fresh next_name)",
@@ -39,7 +39,8 @@ HISTORY = {
     "C10_1": "missed as built; caught after the abstract evaluator modelled list aliasing and call statements (in-place mutation of an operand)",
     "C10_2": "caught as built", "C10_3": "caught as built",
     "C11_1": "missed as built; T2 now also evaluated with numeric scalars (-2, 0, 1/2)",
-    "C11_2": "caught as built", "C11_3": "missed as built; rule C11-T7 added",
+    "C11_2": "caught as built", "C11_3": "missed as built; rule C11-T7 added, later rewritten as abstract evaluation (the seed itself repaired the sequential substitution that became fix 34ab32b, "
+             "and truncated the mapping with zip; patch rebased onto that fix: only the truncation is left)",
     "C12_1": "missed as built (the reader only understood three-component straight-line branches); caught after C12 was rewritten as an abstract evaluation for component counts 0..3",
     "C12_2": "missed as built; caught after the C12 rewrite (constant-field family)",
     "C12_3": "caught as built",
@@ -132,6 +133,16 @@ def main() -> int:
         rows.append((sid, verdict, "; ".join(f"{k}-{'/'.join(v['rules']) or 'exit ' + str(v['exit'])}" for k, v in sorted(caught.items())) + " | " + HISTORY.get(sid, "?")))
     for r in rows:
         print(" | ".join(r))
+    table = ["| seed | property | what it needs to manifest (short) | reported by | history |", "|---|---|---|---|---|"]
+    for a, b, c in rows:
+        if b in ("dropped", "unconfirmed"):
+            table.append(f"| {a} | {a.split('_')[0]} | - | {b} | {c[:300]} |")
+            continue
+        meta = json.loads((out / a / "meta.json").read_text())
+        rep = "; ".join(f"{k} {'/'.join(v['rules'])}" if v["exit"] == 1 else f"{k} refuses (exit 2)" for k, v in sorted(meta["checks_reporting"].items()))
+        needs = meta["needs_to_manifest"].replace("|", "/")
+        table.append(f"| {a} | {meta['property']} | {needs[:230]}{'…' if len(needs) > 230 else ''} | {rep} | {meta['history']} |")
+    (out / "TABLE.md").write_text("\n".join(table) + "\n")
     (out / "INDEX.json").write_text(json.dumps([{"seed": a, "status": b, "detail": c} for a, b, c in rows], indent=1) + "\n")
     return 0
 
